@@ -136,7 +136,16 @@ def eval_case(c):
                 Mh = 1.9e27
                 M = body['bulk'] * 4 / 3 * math.pi * R ** 3
                 a = (G * (Mh + M) / n_ ** 2) ** (1 / 3)
-                q = calc_radial_tidal_heating(e, n_, a, Mh, np.ascontiguousarray(r), np.ascontiguousarray(Hmu), np.ascontiguousarray(mu), l)
+                # call boundary: the caller's arrays are untouched and a second call (another orbit state in between) returns the same profile
+                r_in, H_in, mu_in = np.ascontiguousarray(r).copy(), np.ascontiguousarray(Hmu).copy(), np.ascontiguousarray(mu).copy()
+                q = calc_radial_tidal_heating(e, n_, a, Mh, r_in, H_in, mu_in, l)
+                if not (np.array_equal(r_in, r) and np.array_equal(H_in, Hmu, equal_nan=True) and np.array_equal(mu_in, mu)):
+                    V('heating-call-modifies-input', 'calc_radial_tidal_heating changed an array passed by the caller (radius / sensitivity / shear modulus)')
+                    r_in, H_in, mu_in = np.ascontiguousarray(r).copy(), np.ascontiguousarray(Hmu).copy(), np.ascontiguousarray(mu).copy()
+                _ = calc_radial_tidal_heating(2 * e, n_, a, Mh, r_in, H_in, mu_in, l)
+                q2 = calc_radial_tidal_heating(e, n_, a, Mh, r_in, H_in, mu_in, l)
+                if not np.array_equal(np.asarray(q), np.asarray(q2), equal_nan=True):
+                    V('heating-call-not-repeatable', 'calc_radial_tidal_heating returned a different profile when called again with the same arguments')
                 tot = float(np.trapz(q * 4 * math.pi * r ** 2, r))
                 glob = 10.5 * (-k.imag) * G * Mh ** 2 * R ** 5 * n_ * e ** 2 / a ** 6
                 Hs.append(tot / glob - 1)
